@@ -57,6 +57,8 @@ func c06(w *core.World, r *core.Report) {
 
 	r.Rule("R06.12", "", 0)
 	ruleHolderLookupFailureSurfaces(w, r)
+	r.Rule("R02.5", "the position offered to the source is the greatest stored offset: a record chosen by modification time re-requests bytes that were already applied (shared with C02)", 1)
+	ruleNewestCheckpoint(w, r)
 }
 
 func rulePsyncWire(w *core.World, r *core.Report) {
